@@ -68,6 +68,7 @@ def run(ck):
     cases += jgen.module_cases(ck.seed * 31 + 17, 100 if quick else 2500, start_id=len(cases) + 1, auto=True)
     cases += jgen.expr_cases(ck.seed * 31 + 18, 150 if quick else 3000, start_id=len(cases) + 1, auto=True)
     cases += jgen.fragment_cases(True, start_id=len(cases) + 1, neutral=False)
+    cases += jgen.lazy_cases(ck.seed * 31 + 22, 80 if quick else 1500, start_id=len(cases) + 1, auto=True)
     for c in cases:
         c.pop("emit_values", None)
     obs, r = jrun.spec_results("C15", cases, name="auto_on", timeout=3000)
